@@ -5,6 +5,7 @@ printer restricted to the fragment the parser model covers, and AST mutators."""
 import hashlib
 import json
 import os
+import re
 import subprocess
 
 from . import gen
@@ -24,8 +25,10 @@ TRUSTED_JSON = [
     "modelled, not verified: serde-derive's generated Deserialize (externally tagged enums, aliases, map/seq struct forms, unknown / duplicate / "
     "missing fields), the hand-written snapshot / statistics visitors, serde_json's printer on plain strings and integers; serde_json's "
     "tokenizer beyond integers / escape-free strings / whitespace (floats, escapes, UTF-8 validation, recursion limit) is trusted, not modelled",
-    "id text: canonical printers modelled exactly; parsing modelled for canonical forms (lower-case hyphenated uuid, upper-case Crockford "
-    "ulid mod 2^128) only",
+    "id text inside JSON: the full text model of Model/Ids.v / Model/Text.v (Uuid::from_str: simple / hyphenated / braced / urn, either "
+    "case; Ulid::from_string: 26 Crockford characters, either case, value mod 2^128), shared with C16 / C18; modelled from the vendored "
+    "uuid 1.x / ulid 1.x sources, tied to them by the differential runs on non-canonical and near-miss spellings (jsn.id_spellings); JSON "
+    "string escapes (\\uXXXX) inside ids are outside the parser model like every other escape",
 ]
 
 
@@ -369,6 +372,208 @@ BAD_IDS = ["", "x", "zz", "0123", "00000000-0000-0000-0000-00000000000", "7ZZZZZ
            "00000000-0000-0000-0000-0000000000000", "not an id at all, clearly"]
 
 
+# ---------------------------------------------------------------- id spellings
+# The text formats Uuid::from_str / Ulid::from_string / OrderId::from_str accept, written down a third time
+# (python, from the crates' documentation) as an oracle for the generator: every spelling below is classified
+# "same" (must be read as the id it respells), "other" (read as a different id) or "reject" (an error), and
+# the classification is compared with model AND implementation.
+
+HEXD = "0123456789abcdef"
+CROCK = "0123456789ABCDEFGHJKMNPQRSTVWXYZ"
+UUID_RE = re.compile(r"[0-9a-f]{8}-[0-9a-f]{4}-[0-9a-f]{4}-[0-9a-f]{4}-[0-9a-f]{12}\Z")
+ID_KEYS = ("id", "order_id", "taker_order_id", "maker_order_id", "transaction_id")
+
+
+def uuid_text(n):
+    h = "%032x" % n
+    return "-".join([h[:8], h[8:12], h[12:16], h[16:20], h[20:]])
+
+
+def ulid_text(n):
+    return "".join(CROCK[(n >> (5 * (25 - i))) & 31] for i in range(26))
+
+
+def _hex32(h):
+    if len(h) != 32 or any(c not in "0123456789abcdefABCDEF" for c in h):
+        return None
+    return int(h, 16)
+
+
+def _hyph(t):
+    if len(t) != 36 or any(t[p] != "-" for p in (8, 13, 18, 23)):
+        return None
+    return _hex32(t[:8] + t[9:13] + t[14:18] + t[19:23] + t[24:])
+
+
+def py_parse_uuid(s):
+    n = len(s.encode())
+    if n == 32:
+        return _hex32(s)
+    if n == 36:
+        return _hyph(s)
+    if n == 38 and s[0] == "{" and s[-1] == "}":
+        return _hyph(s[1:-1])
+    if n == 45 and s.startswith("urn:uuid:"):
+        return _hyph(s[9:])
+    return None
+
+
+def py_parse_ulid(s):
+    if len(s.encode()) != 26:
+        return None
+    v = 0
+    for c in s:
+        i = CROCK.find(c.upper()) if ("0" <= c <= "9" or "A" <= c <= "Z" or "a" <= c <= "z") else -1
+        if i < 0:
+            return None
+        v = ((v << 5) | i) & U128          # the two top bits of the 130 are shifted out
+    return v
+
+
+def py_parse_oid(s):
+    """-> 'u<n>' | 'l<n>' | None (OrderId::from_str: Uuid first, then Ulid)."""
+    u = py_parse_uuid(s)
+    if u is not None:
+        return "u%d" % u
+    l = py_parse_ulid(s)
+    return None if l is None else "l%d" % l
+
+
+def py_parse_id(s, want):
+    if want == "uuid":
+        u = py_parse_uuid(s)
+        return None if u is None else "u%d" % u
+    return py_parse_oid(s)
+
+
+def mixcase(rng, s):
+    out = "".join(c.upper() if rng.random() < 0.5 else c.lower() for c in s)
+    if out in (s.lower(), s.upper()):      # force a real mixture where the text has two letters
+        idx = [i for i, c in enumerate(s) if c.isalpha()]
+        if len(idx) >= 2:
+            o = list(s.lower())
+            o[idx[0]] = o[idx[0]].upper()
+            out = "".join(o)
+    return out
+
+
+BAD_HEX = "gG/:@`xz _.+"          # the neighbours of 0-9 / A-F / a-f in ASCII, and the usual suspects
+BAD_B32 = "ILOUilou-_ @[`{/:."     # Crockford's excluded letters in both cases, neighbours of the ranges
+
+
+def uuid_spellings(rng, c):
+    """c: canonical (lower-case hyphenated) uuid text -> [(kind, text)]."""
+    h = c.replace("-", "")
+    hexpos = [i for i in range(36) if i not in (8, 13, 18, 23)]
+    i, k = rng.choice(hexpos), rng.randrange(32)
+    p = rng.choice((8, 13, 18, 23))
+    q = p + rng.choice((-1, 1))
+    sw = list(c)
+    sw[p], sw[q] = sw[q], sw[p]
+    out = [
+        # accepted, same id
+        ("uuid_upper", c.upper()), ("uuid_mixed", mixcase(rng, c)),
+        ("uuid_simple", h), ("uuid_simple_upper", h.upper()), ("uuid_simple_mixed", mixcase(rng, h)),
+        ("uuid_braced", "{" + c + "}"), ("uuid_braced_upper", "{" + c.upper() + "}"), ("uuid_braced_mixed", "{" + mixcase(rng, c) + "}"),
+        ("uuid_urn", "urn:uuid:" + c), ("uuid_urn_upper_hex", "urn:uuid:" + c.upper()), ("uuid_urn_mixed", "urn:uuid:" + mixcase(rng, c)),
+        # wrong length
+        ("uuid_len35", c[:-1]), ("uuid_len37", c + "0"), ("uuid_simple_len31", h[:-1]), ("uuid_simple_len33", h + "0"),
+        ("uuid_len35_front", c[1:]), ("uuid_braced_len39", "{" + c + "0}"), ("uuid_urn_len44", "urn:uuid:" + c[:-1]),
+        ("uuid_urn_len46", "urn:uuid:" + c + "0"),
+        # bad character
+        ("uuid_badchar", c[:i] + rng.choice(BAD_HEX) + c[i + 1:]), ("uuid_simple_badchar", h[:k] + rng.choice(BAD_HEX) + h[k + 1:]),
+        ("uuid_braced_badchar", "{" + c[:i] + rng.choice(BAD_HEX) + c[i + 1:] + "}"),
+        ("uuid_urn_badchar", "urn:uuid:" + c[:i] + rng.choice(BAD_HEX) + c[i + 1:]),
+        ("uuid_0x", "0x" + h[2:]), ("uuid_plus", "+" + c[1:]),
+        # hyphens
+        ("uuid_hyphen_shift", "".join(sw)), ("uuid_hyphen_gone", c[:p] + rng.choice(HEXD) + c[p + 1:]),
+        ("uuid_hyphen_under", c[:p] + "_" + c[p + 1:]), ("uuid_extra_hyphen", c[:i] + "-" + c[i + 1:]),
+        ("uuid_simple_hyphen", h[:k] + "-" + h[k + 1:]), ("uuid_groups_12_4_4_4_8", "-".join([h[:12], h[12:16], h[16:20], h[20:24], h[24:]])),
+        # braces
+        ("uuid_simple_braced", "{" + h + "}"), ("uuid_brace_open_only", "{" + c), ("uuid_brace_close_only", c + "}"),
+        ("uuid_brace_wrong_close", "{" + c + ")"), ("uuid_paren", "(" + c + ")"), ("uuid_brace_swapped", "}" + c + "{"),
+        ("uuid_brace_inner_short", "{" + c[:-1] + "}}"), ("uuid_brace_double", "{{" + c[1:-1] + "}}"), ("uuid_len38_nobrace", c + "00"),
+        # urn
+        ("uuid_urn_upper_prefix", "URN:UUID:" + c), ("uuid_urn_mixed_prefix", "Urn:uuid:" + c), ("uuid_urn_typo", "urn:uuie:" + c),
+        ("uuid_urn_simple", "urn:uuid:" + h), ("uuid_urn_braced", "urn:uuid:{" + c + "}"), ("uuid_urn_dash", "urn-uuid-" + c),
+        ("uuid_len45_noprefix", c + "000000000"),
+        # white space
+        ("uuid_space_before", " " + c), ("uuid_space_after", c + " "), ("uuid_space_inside_36", " " + c[1:]),
+    ]
+    return out
+
+
+def ulid_spellings(rng, t):
+    """t: 26 characters of Crockford's alphabet (upper case) -> [(kind, text)]."""
+    i = rng.randrange(26)
+    v0 = CROCK.index(t[0])
+    other = rng.choice([x for x in CROCK if x != t[i]])
+    out = [
+        # accepted, same id
+        ("ulid_lower", t.lower()), ("ulid_mixed", mixcase(rng, t)),
+        # 130 bits: the first character's two top bits are dropped, so these spell the SAME id
+        ("ulid_overflow_alias_8", CROCK[(v0 + 8) % 32] + t[1:]), ("ulid_overflow_alias_16", CROCK[(v0 + 16) % 32] + t[1:]),
+        ("ulid_overflow_alias_24", CROCK[(v0 + 24) % 32] + t[1:]), ("ulid_overflow_alias_lower", (CROCK[(v0 + 8) % 32] + t[1:]).lower()),
+        # accepted, another id
+        ("ulid_other_char", t[:i] + other + t[i + 1:]), ("ulid_other_char_lower", (t[:i] + other + t[i + 1:]).lower()),
+        ("ulid_all_Z", "Z" * 26), ("ulid_all_z", "z" * 26),
+        # wrong length
+        ("ulid_len25", t[:-1]), ("ulid_len27", t + "0"), ("ulid_len25_front", t[1:]),
+        # bad character
+        ("ulid_badchar", t[:i] + rng.choice(BAD_B32) + t[i + 1:]), ("ulid_badchar_first", rng.choice(BAD_B32) + t[1:]),
+        ("ulid_badchar_last", t[:-1] + rng.choice(BAD_B32)), ("ulid_excluded_letter", t[:i] + rng.choice("ILOUilou") + t[i + 1:]),
+        ("ulid_space_before", " " + t), ("ulid_space_inside_26", " " + t[1:]), ("ulid_hyphenated", t[:10] + "-" + t[11:]),
+        ("ulid_braced", "{" + t[1:-1] + "}"),
+    ]
+    return out
+
+
+def id_spellings(rng, s):
+    """Spellings derived from the id text s (canonical or not) -> [(kind, text)]."""
+    if UUID_RE.match(s):
+        out = uuid_spellings(rng, s)
+        # the same 128 bits as a ulid text: an OrderId of the other format, an error for a Uuid field
+        out.append(("uuid_as_ulid_text", ulid_text(py_parse_uuid(s))))
+        return out
+    if len(s) == 26 and all(c in CROCK for c in s):
+        out = ulid_spellings(rng, s)
+        out.append(("ulid_as_uuid_text", uuid_text(py_parse_ulid(s))))
+        out += [("ulid_as_" + k, t) for (k, t) in uuid_spellings(rng, uuid_text(py_parse_ulid(s))) if k in ("uuid_simple_upper", "uuid_braced", "uuid_urn")]
+        return out
+    # not canonical (an earlier mutation): generic edits
+    if not s:
+        return [("id_generic_empty", "0" * 26)]
+    i = rng.randrange(len(s))
+    return [("id_generic_upper", s.upper()), ("id_generic_lower", s.lower()), ("id_generic_drop", s[:i] + s[i + 1:]),
+            ("id_generic_sub", s[:i] + rng.choice(BAD_HEX + BAD_B32) + s[i + 1:])]
+
+
+def classify(orig, spelled, want):
+    """'same' | 'other' | 'reject' according to the python oracle (want: 'uuid' for a Uuid field, else 'oid')."""
+    a, b = py_parse_id(orig, want), py_parse_id(spelled, want)
+    if b is None:
+        return "reject"
+    return "same" if a == b else "other"
+
+
+def id_nodes(j, top=None, p=(), key=None):
+    """Paths of the id texts of an AST -> [(path, 'uuid' | 'oid')]; top: 'oid' / 'uuid' when the whole text is an id."""
+    out = []
+    if isinstance(j, str):
+        if not p and top in ("oid", "uuid"):
+            out.append((p, top))
+        elif key in ID_KEYS:
+            out.append((p, "uuid" if key == "transaction_id" else "oid"))
+    elif isinstance(j, Obj):
+        for i, (k, v) in enumerate(j):
+            out += id_nodes(v, top, p + (i,), k)
+    elif isinstance(j, list):
+        for i, v in enumerate(j):
+            # the elements of filled_order_ids; positional ids of a struct written as a sequence are not tracked
+            out += id_nodes(v, top, p + (i,), "order_id" if key == "filled_order_ids" and isinstance(v, str) else None)
+    return out
+
+
 def junk(rng, depth=0):
     """An arbitrary value of the modelled fragment (for unknown fields / type confusion)."""
     r = rng.random()
@@ -396,7 +601,7 @@ def mutate(rng, j):
     strs = [p for p in ps if isinstance(get(j, p), str)]
     kinds = ["alias_value", "alias_key", "drop_field", "dup_field", "dup_field_edit", "unknown_field", "reorder",
              "struct_as_seq", "seq_wrong_len", "arr_swap", "arr_drop", "arr_dup", "num_edit", "num_edit", "variant_key",
-             "type_confusion", "unit_map_form", "newtype_as_str", "id_edit", "id_bad", "second_key", "empty_obj", "null_node"]
+             "type_confusion", "unit_map_form", "newtype_as_str", "id_edit", "id_bad", "id_spell", "id_spell", "second_key", "empty_obj", "null_node"]
     k = rng.choice(kinds)
     if k == "alias_value" and strs:
         cand = [p for p in strs if get(j, p) in ALIASES]
@@ -487,6 +692,14 @@ def mutate(rng, j):
         if cand:
             p = rng.choice(cand)
             return k, put(j, p, rng.choice(CANON_IDS if k == "id_edit" else BAD_IDS))
+    if k == "id_spell" and strs:
+        cand = [q for (q, _) in id_nodes(j)] or [q for q in strs if looks_like_id(get(j, q))]
+        cand = [q for q in cand if isinstance(get(j, q), str)]
+        if cand:
+            p = rng.choice(cand)
+            kind, t = rng.choice(id_spellings(rng, get(j, p)))
+            if plain(t):
+                return k + ":" + kind, put(j, p, t)
     if k == "second_key" and objs:
         cand = [p for p in objs if len(get(j, p)) == 1]
         if cand:
